@@ -2,9 +2,14 @@
 package c03
 
 import (
+	"bytes"
 	"encoding/json"
 	"fmt"
+	"os"
+	"os/exec"
+	"path/filepath"
 	"reflect"
+	"strings"
 
 	"github.com/samsarahq/thunder/diff"
 	"github.com/samsarahq/thunder/merge"
@@ -194,6 +199,7 @@ func checkPair(rp *explore.Report, old, new interface{}) (nontrivial bool) {
 	} else if g := norm(got); !reflect.DeepEqual(g, sn) {
 		fail("go-merge", "merge.Merge(%s, %s) = %s, want %s", js(so), b, js(g), js(sn))
 	}
+	jsCases = append(jsCases, jsCase{Old: so, Delta: dj, Want: sn, item: "old=" + js(old) + " new=" + js(new), class: class(old, new)})
 	rgot, err := refmerge.Merge(clone(so), clone(dj))
 	if err != nil {
 		fail("client-merge", "documented-format merge of %s into %s failed: %v", b, js(so), err)
@@ -203,7 +209,77 @@ func checkPair(rp *explore.Report, old, new interface{}) (nontrivial bool) {
 	return true
 }
 
+// The repository's own JavaScript client merge (client/src/merge.ts), run by node over every non-empty delta of
+// this process's share of the pairs.
+type jsCase struct {
+	Old   interface{} `json:"o"`
+	Delta interface{} `json:"d"`
+	Want  interface{} `json:"w"`
+	item  string
+	class string
+}
+
+var jsCases []jsCase
+
+func runJSClient(rp *explore.Report) {
+	defer func() { jsCases = nil }()
+	node, err := exec.LookPath("node")
+	repo := os.Getenv("VERIF_REPO")
+	if repo == "" {
+		repo = "/repo"
+	}
+	root := os.Getenv("VERIF_ROOT")
+	if root == "" {
+		root = "/verif"
+	}
+	if err != nil {
+		rp.AddOutcome("js-client=not-run(no node)")
+		return
+	}
+	dir, err := os.MkdirTemp("", "c03js")
+	if err != nil {
+		rp.AddOutcome("js-client=not-run(tmp)")
+		return
+	}
+	defer os.RemoveAll(dir)
+	var buf bytes.Buffer
+	for _, c := range jsCases {
+		b, _ := json.Marshal(c)
+		buf.Write(b)
+		buf.WriteByte('\n')
+	}
+	file := filepath.Join(dir, "cases.jsonl")
+	if err := os.WriteFile(file, buf.Bytes(), 0o644); err != nil {
+		rp.AddOutcome("js-client=not-run(tmp)")
+		return
+	}
+	out, err := exec.Command(node, filepath.Join(root, "engine", "js", "mergecheck.js"), filepath.Join(repo, "client", "src", "merge.ts"), file).Output()
+	lines := strings.Split(string(out), "\n")
+	if err != nil || len(lines) == 0 || lines[0] != "LOADED" {
+		rp.AddOutcome("js-client=not-run(load)")
+		return
+	}
+	rp.AddOutcome("js-client=run")
+	for _, l := range lines[1:] {
+		if l == "" {
+			continue
+		}
+		var m struct {
+			N    int
+			Got  string
+			Want string
+		}
+		if json.Unmarshal([]byte(l), &m) != nil || m.N >= len(jsCases) {
+			continue
+		}
+		c := jsCases[m.N]
+		rp.AddViolation(&explore.Violation{Item: c.item, Signature: "c03/js-client-merge/" + c.class, Stable: true,
+			Failures: []explore.Failure{{Clause: "js-client-merge", Msg: fmt.Sprintf("client/src/merge.ts merge(%s, %s) = %s, want %s", js(c.Old), js(c.Delta), m.Got, m.Want)}}})
+	}
+}
+
 func run(rp *explore.Report, tier string) {
+	defer runJSClient(rp)
 	V := values(tier)
 	var k int64
 	for i, v := range V {
@@ -266,5 +342,5 @@ func run(rp *explore.Report, tier string) {
 
 func init() {
 	reg.Register(&reg.Harness{Property: "C03", Name: "c03/roundtrip", Level: "exploration", Run: run,
-		Rule: "all ordered pairs (old,new) over a generated alphabet V of JSON values (scalars, arrays with duplicates, objects over field names {a,b,$,0,f,g}, __key objects incl. a null key next to the key-less and the keyed object, arrays of keyed objects up to length 3-4, nested arrays/objects, fields appearing with complex values), plus for every array value the pairs in which new shares old's backing storage (reslice to every shorter length, extension into spare capacity, same-length alias; top level / under a field / as an element); oracle: Diff nil => stripped values equal, else Go merge.Merge and an independent implementation of the documented client format applied to StripKey(old) with the JSON-decoded delta give StripKey(new); Diff(x,x)=nil; arguments unmodified; delta JSON-stable. non-trivial = pairs with a non-empty delta"})
+		Rule: "all ordered pairs (old,new) over a generated alphabet V of JSON values (scalars, arrays with duplicates, objects over field names {a,b,$,0,f,g}, __key objects incl. a null key next to the key-less and the keyed object, arrays of keyed objects up to length 3-4, nested arrays/objects, fields appearing with complex values), plus for every array value the pairs in which new shares old's backing storage (reslice to every shorter length, extension into spare capacity, same-length alias; top level / under a field / as an element); oracle: Diff nil => stripped values equal, else Go merge.Merge and an independent implementation of the documented client format applied to StripKey(old) with the JSON-decoded delta give StripKey(new), and so does the repository's JavaScript client merge (client/src/merge.ts run by node over every non-empty delta); Diff(x,x)=nil; arguments unmodified; delta JSON-stable. non-trivial = pairs with a non-empty delta"})
 }
